@@ -217,7 +217,8 @@ pub fn history(seed: u64, idx: u64) -> Case {
                     let st = server.conn(k);
                     let look = PingFault::Lookalike(rng.below(5) as u8);
                     let code = PingFault::ErrorCode(rng.below(crate::server::ERROR_REPLIES.len() as u64) as u8);
-                    let f = *rng.pick(&[PingFault::Stale, PingFault::Wrong, look, look, PingFault::Error, code, code, PingFault::Disconnect, PingFault::Silence]);
+                    let shape = PingFault::Shape(rng.below(3) as u8);
+                    let f = *rng.pick(&[PingFault::Stale, PingFault::Wrong, look, look, shape, shape, PingFault::Error, code, code, PingFault::Disconnect, PingFault::Silence]);
                     if rng.chance(1, 5) {
                         st.lock().unwrap().kill = true;
                         for _ in 0..2000 {
